@@ -9,7 +9,6 @@ import (
 	"fmt"
 	"os"
 	"runtime"
-	"runtime/pprof"
 	"sort"
 	"strconv"
 	"strings"
@@ -446,11 +445,6 @@ func run(tier string) int {
 		deadline = 21 * time.Minute
 	}
 	if idx, n, isWorker := engine.WorkerShard(); isWorker {
-		if pf := os.Getenv("VERIF_C19_PROF"); pf != "" && idx == 0 {
-			f, _ := os.Create(pf)
-			_ = pprof.StartCPUProfile(f)
-			defer pprof.StopCPUProfile()
-		}
 		res := runShard(idx, n, bnd, engine.NewBudget(deadline))
 		engine.Emit(res)
 		engine.FlushEmit()
